@@ -20,7 +20,14 @@ if (cd $wt && $GO build ./... >/dev/null 2>&1); then builds=yes; fi
 if ! $GO test -vet=off -count=1 -timeout 10m -run "^${tst}\$" . > $d/demo_with.log 2>&1; then with=fail; fi
 if [ -z "$nosuite" ]; then
   rm -f "$wt/$dir/zz_seed_demo_test.go"
-  (cd $wt && $GO test -json -vet=off -count=1 -timeout 25m ./... > $d/suite_with.json 2>&1)
+  # the three tracer tests write to fixed paths under /tmp and collide with (or hang under) suite runs going on elsewhere
+  # on the machine: they are run separately, alone, up to three times
+  TR='^(TestJSONTracer|TestPBTracer|TestRemoteTracer)$'
+  (cd $wt && $GO test -json -vet=off -count=1 -timeout 25m -skip "$TR" ./... > $d/suite_with.json 2>&1)
+  for k in 1 2 3; do
+    (cd $wt && timeout 600 $GO test -json -vet=off -count=1 -timeout 8m -run "$TR" . > $d/suite_tracers.json 2>&1) && break
+  done
+  cat $d/suite_tracers.json >> $d/suite_with.json
   suite=$(python3 - "$d/suite_with.json" <<'PY'
 import json,sys
 p=f=0; fails=[]
